@@ -185,6 +185,29 @@ def run(chk):
                 if not ok:
                     oracle_bad.append(dict(info, what=f"result changes under {tname}", expected=loop_x.tolist(), observed=got.tolist()))
             distinct.add((fam, ename, "vmap-X"))
+    # the same kernel OBJECT evaluated eagerly, passed through jit as a pytree argument, and after a pytree round trip: hyper-parameters stored as
+    # Python floats become tracers / arrays there; values inside and at the edge of the library's own tolerance windows (SHO quality factor near 1/2)
+    xs14 = jnp.asarray(np.linspace(0.0, 3.0, 5))
+    ys14 = jnp.asarray(np.sin(np.arange(5.0)))
+    for qv in (0.5, 0.500004, 0.499996, 0.5 + 2e-5, 0.7):
+        for qname, qarg in (("python float", float(qv)), ("numpy float64", np.float64(qv)), ("0-d array", jnp.asarray(qv))):
+            ksho = qs.SHO(omega=1.3, quality=qarg, sigma=0.9) + qs.Exp(0.8)
+            info = dict(family="quasisep", entry=f"SHO(quality={qv!r} as {qname}) + Exp: kernel matrix / log_probability", quality=qv)
+            try:
+                fK = lambda k: k(xs14, xs14)                                                                    # noqa: E731
+                fL = lambda k: GaussianProcess(k, xs14, diag=jnp.asarray(0.1)).log_probability(ys14)            # noqa: E731
+                lk, tk = jax.tree_util.tree_flatten(ksho)
+                for fname_, f_ in (("kernel matrix", fK), ("log_probability", fL)):
+                    e_ = np.asarray(f_(ksho))
+                    for tname, got in (("jit with the kernel as an argument", np.asarray(jax.jit(f_)(ksho))),
+                                       ("pytree round trip", np.asarray(f_(jax.tree_util.tree_unflatten(tk, lk)))),
+                                       ("round trip with array leaves", np.asarray(f_(jax.tree_util.tree_unflatten(tk, [jnp.asarray(v) for v in lk]))))):
+                        n_eval += 1
+                        ok, dv = close(got, e_, 1e-9)
+                        if not ok:
+                            oracle_bad.append(dict(info, what=f"{fname_} changes under {tname}", expected=e_.tolist(), observed=got.tolist()))
+            except Exception as e:  # noqa: BLE001
+                oracle_bad.append(dict(info, what="a public computation fails under a transformation", observed=f"{type(e).__name__}: {str(e)[:120]}"))
     # order sensitivity: nothing created while tracing may leak into later computations -- run under jit FIRST (on array shapes not
     # used before in this process), then eagerly, then under a different jit, for every noise model and both solvers
     from tinygp.solvers import DirectSolver, QuasisepSolver
